@@ -310,11 +310,21 @@ func main() {
 			var err error
 			matched := false
 			tries := 0
-			for tries < maxTries && !matched {
+			// a scenario whose first mismatch is the same operation with the same outcome 12 times in a
+			// row is given up as unforceable (e.g. a tree where both kinds travel in one ordered channel)
+			sameAt, sameN := -1, 0
+			for tries < maxTries && !matched && sameN < 12 {
 				tries++
 				evs, matched, err = attempt(sc, nKeys)
 				if err != nil {
 					return err
+				}
+				if !matched {
+					if len(evs) == sameAt {
+						sameN++
+					} else {
+						sameAt, sameN = len(evs), 1
+					}
 				}
 			}
 			if !matched {
